@@ -25,6 +25,7 @@ type c06Case struct {
 	Bytes string `json:"bytes"` // hex
 	Class string `json:"class"` // generator class (informational)
 	Chunk int    `json:"chunk,omitempty"`
+	Noise uint64 `json:"noise,omitempty"`
 }
 
 // clauses evaluates every clause of the acceptance predicate that can be evaluated.
@@ -145,7 +146,7 @@ func genX32(t *rapid.T) (b []byte, class string, pt hx.RPt) {
 func genC06(t *rapid.T) c06Case {
 	form := rapid.SampledFrom([]string{"compressed", "compressed", "uncompressed", "uncompressed", "readpoint"}).Draw(t, "form")
 	xb, class, _ := genX32(t)
-	c := c06Case{Form: form}
+	c := c06Case{Form: form, Noise: noiseSeedFrom(rapid.Uint64().Draw(t, "noise"))}
 	switch form {
 	case "compressed", "readpoint":
 		b := xb
@@ -252,6 +253,15 @@ func evalC06(c c06Case, rec *hx.Rec) error {
 	}
 	if (werr == nil) != (len(failed) == 0) {
 		panic(hx.Inconclusive{Msg: fmt.Sprintf("reference predicate inconsistent for %s %x: %v vs %v", c.Form, in, werr, failed)})
+	}
+	runNoise(c.Noise, 2, false)
+	if c.Noise%4 == 1 { // the trusted decoders see the very same bytes first; the untrusted verdict must not depend on that
+		_ = hx.Try(func() {
+			var t1, t2 banderwagon.Element
+			_ = t1.SetBytesUnsafe(in)
+			_ = t2.SetBytesUncompressed(in, true)
+		})
+		rec.Label("trusted_decode_of_same_bytes_first")
 	}
 	var e banderwagon.Element
 	var ierr error
